@@ -33,7 +33,7 @@ LEVEL_NOTE = 'Trusted: bvf/refmodel.py Layouter.image; generator exclusions in e
 @st.composite
 def _cases(draw, tier):
     cfg = draw(G.layout_isa(zones=True, blocks=True))
-    b, feats = G.general_program(draw, cfg, max_steps=20)
+    b, feats = G.general_program(draw, cfg, max_steps=20, extra=['midlabel', 'midlabel'])
     if draw(st.booleans()):
         # trailing lines that emit nothing, to exercise the default end
         for _ in range(draw(st.integers(1, 3))):
